@@ -289,8 +289,12 @@ func (r *Raft) onSnapshotTaken(t snapTaken) {
 		nowCompact, canCompact := t.meta.index, t.meta.index
 		if r.state == Leader {
 			for _, repl := range r.ldr.repls {
-				if repl.status.matchIndex < nowCompact {
-					nowCompact = repl.status.matchIndex
+				// entry[matchIndex] must stay: replication reads its term
+				// as prevLogTerm, through the log view it already holds
+				if m := repl.status.matchIndex; m == 0 {
+					nowCompact = 0
+				} else if m-1 < nowCompact {
+					nowCompact = m - 1
 				}
 				if repl.status.noContact.IsZero() && repl.status.matchIndex < canCompact {
 					canCompact = repl.status.matchIndex
